@@ -311,3 +311,89 @@ fn c15_run_tree_descent() {
     std::mem::forget(shared);
     std::mem::forget(painter);
 }
+
+// ---- C15: thread-count list inside run_bench_entry (0 -> available parallelism, sorted, duplicates collapse)
+
+struct TGhost {
+    magic: u64,
+    par: usize,
+    n: usize,
+    tc: [usize; 4],
+}
+static mut TG: TGhost = TGhost { magic: 0xD1FA_57A7_1C00_1501, par: 3, n: 0, tc: [0; 4] };
+static mut TLIST: [usize; 3] = [0; 3];
+
+fn known_parallelism_stub() -> NonZeroUsize {
+    NonZeroUsize::new(unsafe { TG.par }).unwrap()
+}
+fn bench_rec_threads(b: Bencher) {
+    unsafe {
+        if TG.n < 4 {
+            TG.tc[TG.n] = b.context.thread_count.get();
+        }
+        TG.n += 1;
+    }
+}
+fn format_stub(_a: std::fmt::Arguments<'_>) -> String {
+    String::new()
+}
+
+// @cell props=C15 tier=quick kind=core timeout=2400 mem=24 cls=K
+// @desc run_bench_entry in test mode with threads = [a, b, c] (symbolic, each in 0..=3, available parallelism
+// @desc stubbed to 3): the benchmark is entered once per distinct effective thread count, in ascending order,
+// @desc 0 counting as the available parallelism
+#[kani::proof]
+#[kani::unwind(5)]
+#[kani::stub(std::io::_print, print_stub)]
+#[kani::stub(std::io::_eprint, print_stub)]
+#[kani::stub(alloc::fmt::format, format_stub)]
+#[kani::stub(crate::util::known_parallelism, known_parallelism_stub)]
+#[kani::stub(crate::tree_painter::TreePainter::start_leaf, p_start_leaf)]
+#[kani::stub(crate::tree_painter::TreePainter::finish_empty_leaf, p_finish_empty)]
+#[kani::stub(crate::tree_painter::TreePainter::ignore_leaf, p_ignore_leaf)]
+#[kani::stub(crate::tree_painter::TreePainter::start_parent, p_start_parent)]
+#[kani::stub(crate::tree_painter::TreePainter::finish_parent, p_finish_parent)]
+#[kani::stub(crate::tree_painter::TreePainter::finish_leaf, p_finish_leaf)]
+#[kani::stub(std::hash::RandomState::new, rs_stub)]
+fn c15_thread_counts_sorted_dedup() {
+    let l: [usize; 3] = [kani::any(), kani::any(), kani::any()];
+    kani::assume(l[0] <= 3 && l[1] <= 3 && l[2] <= 3);
+    unsafe { TLIST = l; }
+    let entry = BenchEntry {
+        meta: EntryMeta { display_name: "b", raw_name: "b", module_path: "m", location: LOC, bench_options: None },
+        bench: BenchEntryRunner::Plain(bench_rec_threads),
+    };
+    let d = Divan::default();
+    let entry_opts = BenchOptions { threads: Some(Cow::Borrowed(unsafe { &TLIST[..] })), ..Default::default() };
+    let shared = SharedContext { action: Action::Test, timer: Timer::Os, thread_pool: ThreadPool::new() };
+    let painter = RefCell::new(TreePainter::new(0, [0; TreeColumn::COUNT]));
+    d.run_bench_entry(Action::Test, AnyBenchEntry::Bench(&entry), None, &shared, Some(&entry_opts), &painter, true);
+    // model: map 0 -> 3, then the distinct values ascending
+    let m = [if l[0] == 0 { 3 } else { l[0] }, if l[1] == 0 { 3 } else { l[1] }, if l[2] == 0 { 3 } else { l[2] }];
+    let mut exp = [0usize; 3];
+    let mut k = 0;
+    let mut v = 1;
+    while v <= 3 {
+        if m[0] == v || m[1] == v || m[2] == v {
+            exp[k] = v;
+            k += 1;
+        }
+        v += 1;
+    }
+    unsafe {
+        assert_eq!(TG.n, k);
+        let mut i = 0;
+        while i < k {
+            assert_eq!(TG.tc[i], exp[i]);
+            i += 1;
+        }
+        assert_eq!(TG.magic, 0xD1FA_57A7_1C00_1501);
+    }
+    kani::cover!(k == 1 && l[0] == 0 && l[1] == 3);
+    kani::cover!(k == 2 && l[0] == 2 && l[1] == 1 && l[2] == 2);
+    kani::cover!(k == 3);
+    std::mem::forget(d);
+    std::mem::forget(entry);
+    std::mem::forget(shared);
+    std::mem::forget(painter);
+}
